@@ -30,6 +30,10 @@ package ice
 //@   ensures repeated-close-is-a-noop: old(s.closeOnce) != 0 ==> result == nil && *s.refs == old(*s.refs) && s.ctx.gDone == old(s.ctx.gDone)
 //@   ensures last-handle-closes-the-underlying-connection: old(s.closeOnce) == 0 && last ==> closedUnderlying
 //@   ensures closed-afterwards: s.closeOnce != 0
+//@   ghostvar clearedDeadline bool = false
+//@   site call SetWriteDeadline#1 assert the-deadline-is-cleared-on-the-shared-connection-by-a-handle-that-is-not-the-last: !last && recv == s.underlying && s.writeDeadlineArmed != 0
+//@   site call SetWriteDeadline#1 ghost clearedDeadline := true
+//@   ensures a-handle-never-leaves-its-write-deadline-to-its-siblings: old(s.closeOnce) == 0 && !last && old(s.writeDeadlineArmed) != 0 ==> clearedDeadline
 
 //@ func (*sharedPacketConn).WriteTo
 //@   props C13
